@@ -124,6 +124,9 @@ def run_property(pid, tier="quick", replay=None, fact_dirs=None, quiet=False, wr
         mod.run(ctx)
     except AnchorLost:
         pass
+    except Exception as e:  # a rule crashed on an unexpected shape: fail closed with a diagnosable report, not a traceback
+        tb = traceback.format_exc().strip().splitlines()
+        ctx.anchor_lost("runner", "rule module crashed: %s (%s)" % (e, " | ".join(x.strip() for x in tb[-4:-1])))
     known = [k for k in load_known() if k["property"] == pid]
     known_keys = {k["key"]: k for k in known if k["status"] == "known"}
     out_lines = []
